@@ -11,6 +11,8 @@ mod c10;
 mod views;
 #[path = "codec/autotraits.rs"]
 mod autotraits;
+#[path = "codec/ranges.rs"]
+mod ranges;
 
 fn main() {
     mcx::engine::main(|prop, tier| match prop {
@@ -20,6 +22,9 @@ fn main() {
             let mut d = c10::def(tier);
             d.subs.extend(views::subs(tier));
             d.subs.extend(autotraits::subs());
+            d.subs.extend(ranges::subs());
+            d.required_outcomes.push("ranges:view-ok".into());
+            d.required_outcomes.push("ranges:out-of-bounds-panics".into());
             d.required_outcomes.push("autotraits:rc-backed-not-send-not-sync".into());
             d.required_outcomes.push("autotraits:shareable-ok".into());
             d.required_outcomes.extend(views::required_outcomes());
